@@ -114,6 +114,7 @@ class Evaluator:
         self.notes: list[str] = []
         self.inline_funcs: set[str] = set(_DEFAULT_INLINE)
         self._ovr: dict = {}
+        self.opaque_funcs: set[str] = set()
 
     # ------------------------------------------------------------------ entry points
     def eval_method(self, cls_name: str, meth: str, module_suffix: str | None = None, bind: dict | None = None):
@@ -787,6 +788,8 @@ class _Ctx:
         # call of a call: jax.vmap(f, in_axes)(args) / jax.grad(f)(x) / transform(src)(args)
         if is_t(f, "call"):
             inner = f[1]
+            if is_t(inner, "global") and inner[1].split(".")[-1] == "grad" and f[2] and ev.closure_of(f[2][0]) is not None:
+                return ("gradof", self.call_value(f[2][0], args, kwargs), tuple(args))
             if inner == G("jax.vmap") or inner == G("jax.vmap".replace("jax.", "jax.")) or (is_t(inner, "global") and inner[1] in ("jax.vmap", "vmap")):
                 r = self.vmap(f, args, kwargs)
                 if r is not None:
@@ -863,7 +866,7 @@ class _Ctx:
         if target is not None:
             tm, fn = target
             local = self.module is not None and tm is self.module
-            if (local or short in ev.inline_funcs) and short not in _NEVER_INLINE and not _is_opaque_fn(fn):
+            if (local or short in ev.inline_funcs) and short not in _NEVER_INLINE and short not in ev.opaque_funcs and not _is_opaque_fn(fn):
                 clo = Closure(fn, {}, tm, None, fn.name)
                 r = self.inline(clo, args, kwargs)
                 if r is not None:
